@@ -14,6 +14,7 @@ pub mod shape;
 pub mod w;
 pub mod c04;
 pub mod c05;
+pub mod c08;
 pub mod c09;
 pub mod c10;
 pub mod c11;
